@@ -367,9 +367,58 @@ def open_unit(v, seg, last, N, res):
 
 # -------------------------------------------------------------------------------- driver
 
+def xver_unit(va, vb, res):
+    """positions do not depend on which version of a segment was used first in the process: every segment of vb that va
+    also defines is built and encoded in va, then its first and last field of vb are assigned by name and must be encoded
+    at their own numbers and parsed back under their own names"""
+    from hl7apy.core import Segment
+    from hl7apy.parser import parse_segment
+    ec = refmodel.default_ec(vb)
+    la = common.libs()[va]
+    for seg in tables.segment_names(vb):
+        if seg == 'MSH' or seg not in la.SEGMENTS or tables.segment_anomaly(va, seg) or tables.segment_anomaly(vb, seg):
+            continue
+        rows_a = [(i, fr) for i, fr in tables.field_rows(va, seg) if i and fr.ok]
+        rows_b = [(i, fr) for i, fr in tables.field_rows(vb, seg) if i and fr.ok]
+        if not rows_a or not rows_b:
+            continue
+        try:
+            sa = Segment(seg, version=va)
+            for i, fr in (rows_a[0], rows_a[-1]):
+                setattr(sa, fr.name.lower(), 'x')
+            sa.to_er7()
+        except Exception:
+            pass
+        for i, fr in (rows_b[0], rows_b[-1], rows_b[len(rows_b) // 2]):
+            res.states += 1
+            res.evaluations += 1
+            res.transitions += 3
+            point = {'kind': 'xver', 'va': va, 'vb': vb}
+            val = tables.literal(fr.datatype, vb) if fr.kind == 'leaf' and tables.is_base(vb, fr.datatype) else 'x'
+            want = refmodel.enc_segment(seg, {i: [val]}, ec)
+            try:
+                sb = Segment(seg, version=vb)
+                setattr(sb, fr.name.lower(), val)
+                got = sb.to_er7()
+                back = [c.name for c in parse_segment(want, version=vb).children if c.to_er7() != '']
+            except Exception as e:
+                res.violation('order-dependence|raises|%s' % exc_class(e), '%s of v%s after the same segment was used in v%s: %s: %s' % (fr.name, vb, va, exc_class(e), e), point, 2)
+                continue
+            res.validated += 1
+            if got != want or back != [fr.name]:
+                res.violation('order-dependence|position|after-other-version', '%s of v%s after %s was built and encoded in v%s: encodes %r (expected %r), the expected text '
+                              'parses to %r' % (fr.name, vb, seg, va, got, want, back), point, 2)
+            else:
+                res.classes['position-kept-after-other-version'] += 1
+    res.dims['cross-version pairs'] += 1
+
+
 def units(tier):
     N = 64 if tier == 'quick' else 512
     us = []
+    for a, b in zip(VERSIONS, VERSIONS[1:]):
+        us.append(('xver', a, b))
+        us.append(('xver', b, a))
     for v in VERSIONS:
         for seg in tables.segment_names(v):
             us.append(('seg', v, seg))
@@ -387,6 +436,8 @@ def run_unit(unit, tier):
         seg_unit(unit[1], unit[2], res)
     elif unit[0] == 'dt':
         dt_unit(unit[1], res)
+    elif unit[0] == 'xver':
+        xver_unit(unit[1], unit[2], res)
     else:
         open_unit(unit[1], unit[2], unit[3], unit[4], res)
     res.enumerated = res.states
@@ -422,5 +473,7 @@ def replay(point, res):
         seg_unit(point['v'], point['seg'], res)
     elif point['kind'] == 'dt':
         dt_unit(point['v'], res)
+    elif point['kind'] == 'xver':
+        xver_unit(point['va'], point['vb'], res)
     else:
         open_unit(point['v'], point['seg'], point['last'], point['N'], res)
